@@ -529,6 +529,9 @@ def mutate(rng, b: bytes) -> bytes:
     return bytes(ba)
 
 
+SWEEP_BYTES = (0x00, 0x01, 0x7F, 0x80, 0xFC, 0xFD, 0xFE, 0xFF)
+
+
 def payload_cases(ctx, e, n_gen, n_fuzz):
     """yields (ctxvars, payload, origin) for one byte-payload key"""
     ser = e.serializer
@@ -551,6 +554,27 @@ def payload_cases(ctx, e, n_gen, n_fuzz):
                 if isinstance(b, (bytes, bytearray)):
                     produced.append(bytes(b))
                     yield ctxvars, bytes(b), "generated", val
+        # systematic per-byte boundary sweep over valid payloads: one position at a time set to each boundary byte
+        # (catches leaf codecs that lose the top / bottom raws of an integer-backed field wherever it sits)
+        bases = []
+        for b in sorted(set(produced), key=lambda x: (-len(x), x)):
+            if not any(len(b) == len(o) for o in bases):
+                bases.append(b)                      # one base per distinct length, longest first
+            if len(bases) >= ctx.pick(2, 4):
+                break
+        for base in bases:
+            n = len(base)
+            limit = ctx.pick(96, 100000)
+            if n <= limit:
+                positions = range(n)
+            else:
+                stride = -(-n // limit)
+                off = rng.randrange(stride)
+                positions = range(off, n, stride)
+            for pos in positions:
+                for bv in SWEEP_BYTES:
+                    if base[pos] != bv:
+                        yield ctxvars, base[:pos] + bytes((bv,)) + base[pos + 1:], "sweep", None
         # payloads of exactly the sizes that select a sub-template / fill a fixed-size template
         se = _se()
         sizes = set()
@@ -583,8 +607,9 @@ def corr_bytes(ctx, reg):
                      rule="per registered byte-payload key and per context value selecting a sub-template (every key of "
                           "TEMPLATES plus an absent one; every subset of the switch flags): values generated from the "
                           "sub-template's own spec tree and serialized (= payloads the serializer can itself produce: must be "
-                          "accepted and survive decode-encode byte-for-byte), mutations of those and raw random / zero byte "
-                          "strings (if accepted: one decode-encode pass must reach a fixed point that decodes to the same "
+                          "accepted and survive decode-encode byte-for-byte), a per-byte boundary sweep of those (every position - a strided subset of long payloads in the "
+                          "quick tier - set to each of 00 01 7F 80 FC FD FE FF, one at a time), random mutations, and raw random / "
+                          "zero byte strings (if accepted: one decode-encode pass must reach a fixed point that decodes to the same "
                           "value); each in object and plain-data form; plain-data values must consist of literals only and, "
                           "when they hold no inf/nan, repr() must evaluate back (ast.literal_eval) to an equal value that "
                           "serializes to the same bytes; no model involved; non-trivial = accepted payloads")
